@@ -57,3 +57,106 @@ claim("C19",
       "Not decided: absence of all panics and hangs (undecidable); general index/slice bounds (needs interval analysis), rectangularity of loaded tables, the remaining panic classes R-ERR-3..10 (being built). AST-typed assertions are fixed by the grammar and out of scope.",
       "SSA branch-fact analysis; interprocedural type-set fixpoint with hypothesis pruning",
       "DESIGN.md §3 C19")
+
+claim("C01",
+      "Decides the control skeleton that makes commit/rollback happen for every way a procedure can end (not the bytes written): "
+      "(R-TXN-1) every call site reaching Tx.Commit is the COMMIT arm or lies behind err==nil ∧ flow==Terminate; AutoCommit is set on every path to Execute; "
+      "(R-TXN-2) a deferred Rollback + forced release dominates every use of the processor, and SIGINT/SIGTERM/SIGQUIT are routed to the cancel of the action's context; "
+      "(R-TXN-3) in Commit no path leads from a file swap back to an encode or file write, and a failed write can reach neither a swap nor a success return; "
+      "(R-TXN-4) the set of functions that publish views equals a frozen table and every statement arm of ExecuteStatement marks its FileInfo as uncommitted on each success path with a positive count; "
+      "(R-TXN-5) Commit/Rollback/ReleaseResources pass their terminal steps; (R-TXN-6) a cancelled encode always returns an error; (R-TXN-7) nothing reachable from Execute exits the process; "
+      "(R-TXN-8) what is encoded is what is swapped and then unset. All are universally quantified over paths and call sites.",
+      "Not decided: that the encoded bytes equal the in-memory state; byte-identity of untouched files beyond who-may-write (C11 R-CLEAN-4). 'Reaches X' excludes paths through the statement interpreter (a user function body may itself contain COMMIT). Signal table checked for linux (quick) and darwin/windows (thorough).",
+      "CFG must-pass / must-precede path rules with edge pruning, who-may-call tables over the VTA call graph, value-origin rules",
+      "DESIGN.md §3 C01")
+
+claim("C02",
+      "Decides the clause 'an updated file keeps its delimiter, encoding, line break and header convention' and 'an encoding error is reported': "
+      "(R-FMT-1) each EncodeView at commit gets ExportOptions of the FileInfo being written; (R-FMT-2) ExportOptions copies each of the 10 dialect fields from the receiver; "
+      "(R-FMT-3) every loader stores each dialect property it detects into the FileInfo; (R-FMT-4) the commit path reads no dialect field of the session flags (one genuine defect repaired: trailing line break); "
+      "(R-FMT-5) every writer error in the encoders reaches a return; (R-FMT-6) the format→encoder and format→loader dispatch tables agree per format constant.",
+      "Not decided: the byte-level round trip itself (quoting decisions, NULL/empty coincidence, fixed-length padding live in the go-text dependency and are value-level), 'nothing is written' for --out. Known but outside static reach: a cell containing a line break is written unquoted by go-text (D16).",
+      "value-origin and table-extraction rules over SSA, error-propagation path rule",
+      "DESIGN.md §3 C02")
+
+claim("C05",
+      "Decides two ordering/accounting clauses only: (R-ORD-1) no map iteration decides the order in which INSERT/REPLACE rows are appended (one genuine defect repaired: REPLACE); "
+      "(R-CNT-1) every count shown in a 'N record(s)' log line and stored in AffectedRows is the very count returned by the statement function of that arm. Copy-on-write isolation of the statements is decided under C08.",
+      "Not decided (value-level): that the table equals the old table with exactly the specified edit, that the statement's own count is right.",
+      "map-iteration-order taint (E7), value-origin rule",
+      "DESIGN.md §3 C05")
+
+claim("C08",
+      "Decides copy-on-read + publish-last, the mechanism behind statement atomicity: (R-ISO-1) values read raw from a view container are never stored through, appended to, sorted, handed to a mutating callee or leaked, and every write of a FileInfo field hits a provably private object (one genuine defect repaired: subquery arm of loadView); "
+      "(R-ISO-2) the accessors hand out View.Copy results only; (R-ISO-3) copy depth of View/Header/RecordSet/Record.Copy; (R-ISO-4) no store into a Cell not allocated in the same function; "
+      "(R-ISO-5) in each data-changing statement function no return with a possibly non-nil error is reachable after a publication (exemptions mechanically justified); (R-ISO-6) CREATE TABLE closes its new handler on every error return; (R-POOL-2) pooled temporaries are not released while referenced.",
+      "Not decided: failures inside go-text; HeaderField.Aliases stays shared after Header.Copy (harmless while cached headers carry nil aliases); errors raised in ExecuteStatement after the statement function returned.",
+      "forward taint with bottom-up parameter summaries, provenance analysis, edge-sensitive error-value path rule",
+      "DESIGN.md §3 C08")
+
+claim("C09",
+      "Does NOT decide mutual exclusion under interleavings (that is model checking). Decides that the protocol steps the argument relies on are present and ordered in the real code, on every path: "
+      "(R-LOCK-1) control files only via O_EXCL create; (R-LOCK-2) writer: existence checks before the create and an rlock re-check after it whose positive edge backs off; (R-LOCK-3) reader: lock check, transient lock, deferred release; "
+      "(R-LOCK-4) acquire before access in each NewHandler*; (R-LOCK-5) every retry cycle crosses ctx.Done() and maps to the timeout error; (R-LOCK-6) update handlers live in FileInfo.Handler until commit/rollback, frozen who-may-close table; (R-CLEAN-1/6) failed acquisition cleans up and only the creator removes a data file (one genuine defect repaired).",
+      "Not decided: the interleaving argument itself, fairness, stdin locking. Idioms: direct / negated / && || / switch existence tests; a test laundered through a bool variable is reported.",
+      "CFG path rules with success/failure edge pruning, who-may-call tables",
+      "DESIGN.md §3 C09")
+
+claim("C10",
+      "Crash points are positions between two file-system calls, so 'for every crash point' is decided as call order on every path: (R-SWAP-1) the rename target is never unlinked before os.Rename (genuine defect repaired); "
+      "(R-SWAP-2) temp descriptor closed ≺ rename(temp→path) ≺ lock release; (R-SWAP-3) FileForUpdate hands out the temp descriptor per OpenType, and no read descriptor is ever written; "
+      "(R-TXN-3) all encodes precede all swaps and a failed write reaches no swap; (R-TXN-6) a cancelled encode aborts the commit.",
+      "Not decided: durability against power loss (no fsync is claimed by the property), atomicity of rename on non-POSIX file systems.",
+      "CFG must-precede rules, per-constant abstract evaluation, who-may-write rule",
+      "DESIGN.md §3 C10")
+
+claim("C11",
+      "Decides on every path: (R-CLEAN-1) each failed acquisition releases what it took; (R-CLEAN-2) the resource tables of close / closeWithErrors / commit and ControlFile.Close agree; (R-CLEAN-3) every handler is tracked by the container and the release functions visit every entry; "
+      "(R-CLEAN-4) FileForUpdate only in Commit, forUpdate=true only in data-changing statements; (R-CLEAN-5) the --out file is closed and removed when empty by a defer registered before use; (R-CLEAN-6) only the creator removes a data file (genuine defect repaired); "
+      "(R-TXN-2) rollback + forced release deferred before any use, signals routed to cancel; (R-TXN-7) no process exit under a transaction; (R-LOCK-4, R-ISO-6, R-TXN-6) shared.",
+      "Not decided: uncatchable kills (excluded by the property), errors returned by os.Remove itself (close stops at the first, closeWithErrors continues).",
+      "CFG must-pass rules with edge pruning, sibling-table agreement, who-may-call tables",
+      "DESIGN.md §3 C11")
+
+claim("C15",
+      "Decides: (R-SCP-1) every declaration indexes the innermost block and every lookup walks from index 0 upward and can stop at the visited element; (R-SCP-2) typestate over pooled block/node scopes: no use after release, at most one release per path, pools fed only by the putters; "
+      "(R-SCP-3) loops clear the child block before each iteration; (R-SCP-4) UDF calls create a child scope, bind into it, release it on every path; (R-SCP-5) the control-transfer table of execute/While/WhileInCursor/IfStmt/Case over all StatementFlow values; (R-SCP-6) recycled scopes are cleared field by field.",
+      "Not decided: handles released through method values or parked in struct fields; what deferred recover paths do to the flow; that RETURN always carries a value.",
+      "typestate analysis over SSA, finite-domain evaluation over the StatementFlow enum, loop-shape analysis",
+      "DESIGN.md §3 C15")
+
+claim("C16",
+      "Decides snapshot ownership and closed-cursor handling: (R-CUR-1) Cursor.view is written only by Open (from a Select result), Close (nil) and the constructor, and Fetch/Count/IsInRange cannot reach Select; (R-CUR-2) every dereference of the view is dominated by its nil test, Open refuses an open cursor; "
+      "(R-CUR-4) WhileInCursor fetches NEXT and the six positions map to their index stores; (R-CUR-5) Open stores view/index=-1/fetched=false and Close stores nil on every success path; R-ISO-1/3/4 and R-POOL-2: the snapshot does not alias cache storage.",
+      "Not decided: the pointer clamping arithmetic of FETCH (unbounded integers; mutant M50 is an expected miss), cross-goroutine use of one cursor.",
+      "who-may-write table, dominance and must-store path rules",
+      "DESIGN.md §3 C16")
+
+claim("C17",
+      "Decides only structural clauses: (R-ANA-1) ordering precedes analysing and the sort state is reset afterwards; (R-ANA-2) every analytic/aggregate function name of the scanner has a registry entry; (R-ANA-3) each registry name is bound to its own implementation; "
+      "(R-AST-1) Analyze does not write the shared syntax tree (genuine defect repaired); (R-KEY-1) partition keys are framed injectively; (R-SRT-3) sorting moves the per-cell sort values with their rows.",
+      "Not decided (value-level): the per-partition, per-frame values of each function, frame boundary arithmetic.",
+      "CFG must-precede, table extraction against a frozen specification, shared taint rules",
+      "DESIGN.md §3 C17")
+
+claim("C18",
+      "Decides only the table pair the print/parse round trip depends on: (R-ESC-1) the escape and unescape tables of strings and identifiers, extracted from the SSA, equal the documented sequences and are mutual inverses, the added quote is in the escape table; (R-ESC-2) literal String() methods print through the quoting helpers.",
+      "Not decided (value-level, all byte strings): parser totality, tree equality after re-parsing, the quote-doubling state machine.",
+      "table extraction from SSA (switch / if-chain / map literal) compared cell by cell",
+      "DESIGN.md §3 C18")
+
+claim("C20",
+      "Decides: (R-CACHE-1) the reload guard of cacheViewFromFile over all 8 assignments of {isCached, forUpdate, cachedForUpdate}: reload iff ¬isCached ∨ (forUpdate ∧ ¬cachedForUpdate); (R-CACHE-2) only ReleaseResources* and the upgrade arm may evict from the view cache; "
+      "(R-CACHE-3) views are filed under their own IdentifiedPath and no sanctioned writer changes the key fields; (R-ISO-1/2/3) readers get copies; (R-TXN-5) COMMIT and ROLLBACK end by clearing the cache.",
+      "Not decided: what another process does to the file between loads (C09); reader-side key equality (needs string-value tracking).",
+      "finite truth-table evaluation of branch conditions, who-may-call table, taint rules shared with C08",
+      "DESIGN.md §3 C20")
+
+claim("C04",
+      "Decides injectivity of the key framing and agreement of the normalisation ladders: (R-KEY-1) everything written into a comparison-key buffer is a constant tag, a numeric rendering, an already serialised key, or text passed through an escaper that handles both the separator and its own escape character (genuine defect repaired); "
+      "(R-KEY-2) both tuple serialisers write the same separator exactly for components i>0; (R-KEY-3) SerializeKey follows the documented ladder in every abstract world, the ladder CompareCombinedly is checked against (R-CMP-3); (R-KEY-4) strict-mode type tags are pairwise distinct.",
+      "Not decided: per-aggregate arithmetic, 'exactly the rows of its bucket', that consumers use the whole key (R-KEY-5 not built). Escaper recognition covers strings.NewReplacer/ReplaceAll with constant pairs and byte-comparison loops.",
+      "taint analysis of key-buffer writes with callee/caller resolution; finite-domain abstract interpretation for the ladder",
+      "DESIGN.md §3 C04")
+
+na("C03", "relational semantics of SELECT over all tables and query shapes is value-level and no sound static argument in reach bounds it; the structural clauses that exist (stage order R-LIM-1, order-preserving result slots R-PAR-1) are run under C07/C12; the remaining planned clauses (truth-test table, join/set dispatch) are not built yet")
